@@ -86,6 +86,61 @@ theorem toDouble_fraction_rounded (ws : Str) (sg : Sign) (ip fp ex : Str) (x : I
     rw [if_neg hdv, if_neg (by omega), if_neg (by omega), if_neg (by omega)]
   · exact (dOfRatQ_correctly_rounded _ _ (Nat.pow_pos (by decide)) hfin).2.2.2.1 (Or.inl h1)
 
+/-- texts without an integer part (`.5`, `-.25e3`): same statement with the digit value of the fraction digits alone -/
+theorem toDouble_fraction_noint (ws : Str) (sg : Sign) (fp ex : Str) (x : Int) (hw : ∀ c ∈ ws, isSpace c = true)
+    (hf : AllDigits fp) (hne : fp ≠ []) (hx : ExpSyntax ex x) :
+    (Val.str (ws ++ sg.str ++ (46 :: (fp ++ ex)))).toDouble ieee
+      = decimalBits (if sg.neg then 2 ^ 63 else 0) (decVal fp) (x - fp.length) := by
+  have hnz : ∀ c ∈ ws ++ sg.str ++ (46 :: (fp ++ ex)), c ≠ 0 := by
+    intro c hc
+    simp only [List.mem_append, List.mem_cons] at hc
+    rcases hc with (hc | hc) | rfl | hc | hc
+    · have := hw c hc; intro e; subst e; simp [isSpace] at this
+    · cases sg <;> simp [Sign.str] at hc <;> omega
+    · decide
+    · have := (isDigit_iff c).1 (hf c hc); omega
+    · exact expSyntax_nz hx c hc
+  show dOfStr (cstr (ws ++ sg.str ++ (46 :: (fp ++ ex)))) = _
+  rw [cstr_of_nonzero _ hnz]
+  exact dOfStr_fraction_noint ws sg fp ex x hw hf hne hx
+
+/-- the conversion used for a non-negative decimal exponent and for plain numerals of any length, `dOfNat n`: below `2^64` it is
+    the integer conversion (`RoundsTo`: neighbouring doubles, nothing between, nearer one, ties to even), from `2^64` on it is
+    `dOfRatQ n 1`, to which `atof_rounding_correct n 1` applies -/
+theorem dOfNat_rounded (n : Nat) :
+    (n < 2 ^ 64 → dOfNat n = dOfRat n 1 ∧ RoundsTo n (dOfRat n 1)) ∧ (2 ^ 64 ≤ n → dOfNat n = dOfRatQ n 1) := by
+  refine ⟨fun h => ⟨by simp [dOfNat, h], dOfRat_roundsTo n h⟩, fun h => ?_⟩
+  have : ¬ n < 2 ^ 64 := by omega
+  simp [dOfNat, this]
+
+/-- decimal text with a non-negative decimal exponent (`1.5e3`, `12.e25`, `1e300`): the conversion `dOfNat` of the integer
+    `dv · 10^e` it denotes — of any size (the `≥ 2^64` gap of the earlier rounds is closed by `dOfNat_rounded`) -/
+theorem toDouble_fraction_int (ws : Str) (sg : Sign) (ip fp ex : Str) (x : Int) (hw : ∀ c ∈ ws, isSpace c = true)
+    (hi : AllDigits ip) (hf : AllDigits fp) (hne : ip ≠ []) (hx : ExpSyntax ex x)
+    (hdv : decVal (ip ++ fp) ≠ 0) (hpos : 0 ≤ x - fp.length) (hhi : x - fp.length ≤ 400) :
+    (Val.str (ws ++ sg.str ++ (ip ++ 46 :: (fp ++ ex)))).toDouble ieee
+      = (if sg.neg then 2 ^ 63 else 0) + dOfNat (decVal (ip ++ fp) * 10 ^ (x - fp.length).toNat) := by
+  rw [toDouble_fraction ws sg ip fp ex x hw hi hf hne hx]
+  unfold decimalBits
+  rw [if_neg hdv, if_neg (by omega), if_neg (by omega), if_pos hpos]
+
+/-- plain numerals of ANY length (`ws* sign? digit+`, also above `2^64`): sign bit plus `dOfNat` of the denoted integer -/
+theorem toDouble_numeral_any {ws : Str} {sg : Sign} {dg : Str} (h : NumSyntax ws sg dg []) (hne : dg ≠ []) :
+    (Val.str (ws ++ sg.str ++ dg)).toDouble ieee = (if sg.neg then 2 ^ 63 else 0) + dOfNat (decVal dg) := by
+  have hnz : ∀ c ∈ ws ++ sg.str ++ dg, c ≠ 0 := by
+    intro c hc
+    simp only [List.mem_append] at hc
+    rcases hc with (hc | hc) | hc
+    · exact isSpace_nonzero c (h.space c hc)
+    · cases sg <;> simp [Sign.str] at hc <;> omega
+    · exact isDigit_nonzero c (h.digits c hc)
+  show dOfStr (cstr (ws ++ sg.str ++ dg)) = _
+  rw [cstr_of_nonzero _ hnz]
+  exact dOfStr_numeral h hne
+
+/-- non-vacuity: `1e25` and `18446744073709551616` are beyond 2^64 and below the overflow threshold of `atof_rounding_correct` -/
+example : (2 : Nat) ^ 64 ≤ 1 * 10 ^ 25 ∧ pickExp (1 * 10 ^ 25) 1 ≤ 971 ∧ pickExp (2 ^ 64) 1 ≤ 971 := by decide
+
 /-- non-vacuity: "0.1" and "-12.50e-1" are such texts; the hypotheses of the rounding theorem hold for "0.1" -/
 example : pickExp 1 (10 ^ 1) ≤ 971 ∧ pickExp 1 (10 ^ 1) + 1 ≤ 971 := by decide
 
